@@ -471,7 +471,16 @@ func c10TimeRule(w *h.W, r *h.Rng, mk func(bulk.StorageClient) *bulk.Ingestor, d
 	n := 150
 	for i := 0; i < n; i++ {
 		tr := r.Fork()
-		reqTime := time.UnixMilli(int64(gen.T0) + int64(tr.Intn(1e9))).UTC()
+		// request times over three years, and calendar corners (31st, leap day, month/year borders) one time in five
+		reqTime := time.UnixMilli(int64(gen.T0) + int64(tr.U64()%94_608_000_000)).UTC()
+		if tr.Chance(1, 5) {
+			corner := h.Pick(tr, []time.Time{
+				time.Date(2024, 1, 31, 12, 0, 0, 0, time.UTC), time.Date(2024, 2, 29, 0, 0, 0, 0, time.UTC), time.Date(2024, 3, 31, 23, 59, 59, 999e6, time.UTC),
+				time.Date(2023, 12, 31, 23, 59, 59, 999e6, time.UTC), time.Date(2025, 1, 1, 0, 0, 0, 0, time.UTC), time.Date(2024, 10, 31, 0, 30, 0, 0, time.UTC),
+				time.Date(2025, 2, 28, 23, 59, 59, 0, time.UTC), time.Date(2024, 12, 30, 23, 30, 0, 0, time.UTC),
+			})
+			reqTime = corner.Add(time.Duration(tr.Intn(3600_000)) * time.Millisecond)
+		}
 		type tf struct {
 			field, text string
 			parsed      time.Time
